@@ -409,6 +409,8 @@ impl<T: Sync + Send + 'static> Nucleo<T> {
             self.worker.lock_arc()
         } else {
             let Some(worker) = self.worker.try_lock_arc_for(Duration::from_millis(timeout)) else {
+                #[cfg(nucleo_verif)]
+                crate::verif::point("tick.lock_failed");
                 self.should_notify.store(true, Ordering::Release);
                 return Status {
                     changed: false,
@@ -418,6 +420,8 @@ impl<T: Sync + Send + 'static> Nucleo<T> {
             worker
         };
 
+        #[cfg(nucleo_verif)]
+        crate::verif::probe("tick.locked");
         let changed = inner.running;
 
         let running = canceled || self.items.count() > inner.item_count();
@@ -425,6 +429,9 @@ impl<T: Sync + Send + 'static> Nucleo<T> {
             inner.running = false;
             if !inner.was_canceled && !self.state.canceled() {
                 self.snapshot.update(&inner)
+            } else {
+                #[cfg(nucleo_verif)]
+                crate::verif::probe("tick.stale_run_discarded");
             }
         }
         if running {
@@ -437,6 +444,8 @@ impl<T: Sync + Send + 'static> Nucleo<T> {
             if cleared {
                 inner.items = self.items.clone();
             }
+            #[cfg(nucleo_verif)]
+            crate::verif::point("tick.spawn");
             self.pool
                 .spawn(move || unsafe { inner.run(status, cleared) })
         }
